@@ -43,6 +43,45 @@ def root_param_name(F, v):
     return None
 
 
+def root_param(F, v):
+    """(name, pointee_is_const) of the parameter that v derives from, ('<local>', False) for allocas, else None."""
+    r, _off = F.ptr_root(v)
+    for _ in range(8):
+        if isinstance(r, ir.Inst) and r.op in ("zext", "sext", "trunc", "ptrtoint", "inttoptr", "bitcast"):
+            r, _o = F.ptr_root(r.ops[0])
+        else:
+            break
+    if isinstance(r, dict) and r.get("k") == "a":
+        a = F.args[r["n"]]
+        dt = a.get("dtype") or ""
+        # "const T*" = pointer to const;  "T* const" = const pointer to mutable
+        const_pointee = dt.endswith("*") and dt.startswith("const ") or ("*" in dt and dt.split("*")[0].strip().startswith("const "))
+        return (a.get("name") or None, bool(const_pointee), dt)
+    if isinstance(r, ir.Inst) and r.op == "alloca":
+        return ("<local>", False, "")
+    return None
+
+
+def interface_signatures(mods):
+    """{internal callee: [(role name, pointee const?, declared type) per argument]}; isal_ wrappers take precedence,
+    then non-static callers."""
+    out = {}
+    prio = {}
+    for src, M in mods.items():
+        for F in M.defined():
+            p = 3 if F.name.startswith("isal_") else 2 if not F.local else 1
+            for I in F.calls():
+                c = I.callee or ""
+                if not c.startswith("_") or c.startswith("__"):
+                    continue
+                n = I.raw.get("nargs", 0)
+                sig = [root_param(F, I.ops[k]) for k in range(n)]
+                if c not in out or p > prio[c]:
+                    out[c] = sig
+                    prio[c] = p
+    return out
+
+
 def interface_roles(mods):
     """{internal callee name: [role name per argument position]} from every call site in the C units; call
     sites inside isal_ wrappers take precedence (their parameter names are the documented ones)."""
